@@ -370,6 +370,7 @@ type cfgResult struct {
 	states, edges, replays, evals, nontrivial, tables int64
 	classes                                           int  // canonical states reached
 	closed                                            bool // frontier ran empty before the depth bound
+	truncated                                         bool // stopped by the time budget
 	depthReached                                      int
 	viol                                              map[string]*cfgViolation
 	violOrder                                         []string
@@ -521,7 +522,7 @@ func explore(cfg *Config, idx int, deadline time.Time) *cfgResult {
 					res.nontrivial++
 				}
 				queue = append(queue, st)
-				if res.sample == nil && !bad && len(m2.list) >= 3 && len(hist) >= 2 {
+				if res.sample == nil && !bad && len(m2.list) >= 2 && len(hist) >= 1 {
 					res.sample = map[string]any{"config": cfg.id(), "history": histString(hist), "members": m2.list, "probe_codes": len(ck.probes),
 						"routing_of_first_codes": fmt.Sprint(ck.probes[:6], "->", t[:6])}
 				}
